@@ -87,8 +87,42 @@ def collect_then_sort(prog, key, fn, rng):
     return False, 'the collected keys are not sorted right after the loop'
 
 
+CLOCK_OR_SOURCE = ('time.Now', 'time.Since', 'math/rand.NewSource', 'math/rand.New', 'crypto/rand.Read', 'crypto/rand.Int', 'os.Getpid')
+
+
+def clock_and_sources(prog, P, out):
+    """one obligation per function of the repository's own packages that reads the clock, the process id or creates a
+    random source of its own: once a seed is given nothing may depend on them.  PROPS['C18']['clock_allowed'] lists the
+    functions where this is the documented behaviour (the seed default; the date lines of the support log)."""
+    rev = {}
+    for nm_, fk_ in prog.aliases.items():
+        rev.setdefault(fk_, nm_)
+    allowed = set(P.get('clock_allowed', {}))
+    n = 0
+    for key in sorted(prog.funcs):
+        fn = prog.funcs[key]
+        if not fn['blocks']:
+            continue
+        hits = []
+        for b in fn['blocks']:
+            for i in b['instrs']:
+                if i['op'] in ('Call', 'Defer', 'Go') and i.get('static') in CLOCK_OR_SOURCE:
+                    hits.append('%s at %s' % (i['static'], i.get('pos', '')))
+        shown = rev.get(key, key)
+        if not hits:
+            n += 1
+            continue
+        name = '%s#determinism.no_clock_no_private_random_source' % shown
+        if shown in allowed or key in allowed:
+            continue
+        out.append((name, '(assert true)\n(check-sat)\n', 'reads the clock / process id or creates a random source of its own: ' + '; '.join(hits), None))
+    out.append(('repository#determinism.no_clock_no_private_random_source', '(assert false)\n(check-sat)\n',
+                '%d functions scanned; the clock is read only in %s' % (n, ', '.join(sorted(allowed)) or 'no function'), None))
+
+
 def generate(prog, contracts, P, tier, results, funcs_report):
     out = []
+    clock_and_sources(prog, P, out)
     rev = {}
     for nm_, fk_ in prog.aliases.items():
         rev.setdefault(fk_, nm_)
